@@ -335,3 +335,460 @@ Lemma mutated_overwrite_unnoticed d w o s stored :
 Proof.
   intros Mu Ms Mw. unfold output_matches. cbn [on_mutated on_current]. rewrite Mu, Ms, Mw. tauto.
 Qed.
+
+(* ================================================================================================ *)
+(* running a command: effect on the world                                                           *)
+(* ================================================================================================ *)
+
+Lemma outputs_valid_recorded d w outs : outputs_valid (onodes d w outs) (out_infos w outs) = Valid.
+Proof.
+  induction outs as [|x outs IH]; [reflexivity|].
+  rewrite onodes_cons, outputs_valid_cons. cbn [on_virtual out_infos map].
+  destruct (node_virtual x) eqn:Vx; [exact IH|].
+  fold (out_infos w outs). unfold output_matches. cbn [on_mutated on_current].
+  destruct (is_mutated d x).
+  - rewrite Bool.eqb_reflx. exact IH.
+  - rewrite info_eqb_refl. exact IH.
+Qed.
+
+(* a stored value that is valid for non-mutated outputs carries infos equivalent to the current ones *)
+Lemma outputs_valid_equiv d w w0 outs :
+  (forall o, In o outs -> is_mutated d o = false) ->
+  outputs_valid (onodes d w outs) (out_infos w0 outs) = Valid ->
+  infos_equiv (out_infos w outs) (out_infos w0 outs) = true.
+Proof.
+  induction outs as [|x outs IH]; intros Mu V; [reflexivity|].
+  rewrite onodes_cons, outputs_valid_cons in V. cbn [on_virtual out_infos map] in V |- *.
+  fold (out_infos w0 outs) in V |- *. fold (out_infos w outs).
+  cbn [infos_equiv]. destruct (node_virtual x) eqn:Vx.
+  - rewrite info_eqb_refl. cbn [tl andb] in V |- *. apply IH; [intros o I; apply Mu; right; exact I | exact V].
+  - unfold output_matches in V. cbn [on_mutated on_current] in V. rewrite (Mu x (or_introl eq_refl)) in V.
+    destruct (info_eqb (stat_w w0 x) (stat_w w x)) eqn:E; [|discriminate V].
+    rewrite (info_eqb_sym_true _ _ E). cbn [andb]. apply IH; [intros o I; apply Mu; right; exact I | exact V].
+Qed.
+
+Lemma command_result_infos e w outs : outs <> [] -> bv_infos (command_result e w outs) = out_infos w outs.
+Proof. destruct outs; [congruence | reflexivity]. Qed.
+
+Lemma command_result_kind e w outs : bv_kind (command_result e w outs) = VSuccessfulCommand.
+Proof. reflexivity. Qed.
+
+Lemma index_of_nth n l : forall i, index_of n l = Some i -> nth_error l i = Some n.
+Proof.
+  induction l as [|x l IH]; intros i H; [discriminate H|]. cbn [index_of] in H.
+  destruct (bytes_eqb x n) eqn:E.
+  - apply bytes_eqb_eq in E. inversion H. subst. reflexivity.
+  - destruct (index_of n l) as [k|]; [|discriminate H]. inversion H. cbn [nth_error]. apply IH. reflexivity.
+Qed.
+
+Lemma index_of_In n l : In n l -> exists i, index_of n l = Some i.
+Proof.
+  induction l as [|x l IH]; intros I; [destruct I|]. cbn [index_of].
+  destruct (bytes_eqb x n) eqn:E; [exists O; reflexivity|].
+  destruct I as [I|I]; [subst x; rewrite bytes_eqb_refl in E; discriminate|].
+  destruct (IH I) as [i Hi]. rewrite Hi. exists (S i). reflexivity.
+Qed.
+
+Lemma nth_info_of_nth k sg l strs i y : nth_error l i = Some y -> nth_info (mkBV k sg l strs) i = Some y.
+Proof.
+  unfold nth_info. cbn [bv_infos]. destruct l as [|x [|x2 l]]; intros H; try exact H.
+  destruct i as [|i]; [exact H|]. cbn in H. destruct i; discriminate H.
+Qed.
+
+Lemma out_infos_nth w outs i o : nth_error outs i = Some o -> node_virtual o = false ->
+  nth_error (out_infos w outs) i = Some (stat_w w o).
+Proof.
+  intros H NV. unfold out_infos. rewrite nth_error_map, H. cbn. rewrite NV. reflexivity.
+Qed.
+
+(* what a dependent node reads from a value the command recorded itself *)
+Lemma ext_result_recorded c e w o :
+  In o (cm_outputs c) -> node_virtual o = false ->
+  ext_result_for_output c o (command_result e w (cm_outputs c)) =
+  Some (if is_missing (stat_w w o) then v_simple VMissingOutput else v_existing (stat_w w o)).
+Proof.
+  intros I NV. unfold ext_result_for_output. rewrite command_result_kind. cbn [is_failure_kind is_successful negb].
+  unfold kind_is at 1. rewrite command_result_kind. cbn [vtag N.eqb Pos.eqb]. rewrite NV.
+  destruct (index_of_In o _ I) as [i Hi]. rewrite Hi.
+  pose proof (index_of_nth _ _ _ Hi) as Hn.
+  assert (Hne : cm_outputs c <> []) by (intros E; rewrite E in I; destruct I).
+  unfold command_result, v_success. destruct (cm_outputs c) as [|x l] eqn:Eo; [congruence|].
+  rewrite <- Eo in *. rewrite (nth_info_of_nth _ _ _ _ i (stat_w w o)); [reflexivity|].
+  apply out_infos_nth; assumption.
+Qed.
+
+Lemma existing_values_differ a b : info_eqb a b = false -> value_equiv (v_existing a) (v_existing b) = false.
+Proof. intros H. unfold value_equiv, v_existing. cbn. rewrite H. reflexivity. Qed.
+
+Section RunFacts.
+Variable F : command -> nat -> list (option bytes) -> bytes.
+
+Lemma write_outputs_wf c ins outs : forall j w, wf_world w -> wf_world (write_outputs F c ins outs j w).
+Proof.
+  induction outs as [|x outs IH]; intros j w W; cbn [write_outputs]; [exact W|].
+  apply IH. destruct (node_virtual x); [exact W | apply wf_write_fresh; exact W].
+Qed.
+
+Lemma write_outputs_clock c ins outs : forall j w, w_clock w <= w_clock (write_outputs F c ins outs j w).
+Proof.
+  induction outs as [|x outs IH]; intros j w; cbn [write_outputs]; [lia|].
+  destruct (node_virtual x).
+  - apply IH.
+  - pose proof (IH (S j) (write_fresh w x mode_file (F c j ins))) as H. rewrite write_fresh_clock in H. lia.
+Qed.
+
+Lemma write_outputs_other c ins outs p : forall j w,
+  (forall o, In o outs -> node_virtual o = false -> o <> p) ->
+  w_fs (write_outputs F c ins outs j w) p = w_fs w p.
+Proof.
+  induction outs as [|x outs IH]; intros j w H; cbn [write_outputs]; [reflexivity|].
+  rewrite IH by (intros o I; apply H; right; exact I).
+  destruct (node_virtual x) eqn:Vx; [reflexivity|].
+  unfold write_fresh. apply put_fs_other. intros E. apply (H x (or_introl eq_refl) Vx). congruence.
+Qed.
+
+(* every non-virtual output carries a stamp handed out during this run *)
+Lemma write_outputs_stamp c ins outs o : forall j w, In o outs -> node_virtual o = false ->
+  is_missing (stat_w (write_outputs F c ins outs j w) o) = false /\
+  w_clock w <= fi_sec (stat_w (write_outputs F c ins outs j w) o).
+Proof.
+  induction outs as [|x outs IH]; intros j w I NV; [destruct I|]. cbn [write_outputs].
+  destruct (mem_bytes o outs) eqn:Em.
+  - apply mem_bytes_In in Em. destruct (IH (S j) (if node_virtual x then w else write_fresh w x mode_file (F c j ins)) Em NV) as [A B].
+    split; [exact A|]. destruct (node_virtual x); [exact B | rewrite write_fresh_clock in B; lia].
+  - assert (Hn : ~ In o outs) by (rewrite <- mem_bytes_In; congruence).
+    destruct I as [I|I]; [subst x | contradiction]. rewrite NV.
+    unfold stat_w. rewrite write_outputs_other by (intros o' I' _ E; subst o'; contradiction).
+    unfold write_fresh. rewrite put_fs_same. split; [apply fresh_not_missing | rewrite fresh_sec; lia].
+Qed.
+
+Lemma write_outputs_same_content c ins outs : forall j w0 w,
+  same_content w0 w ->
+  (forall i o, nth_error outs i = Some o -> node_virtual o = false -> content_w w0 o = Some (F c (j + i)%nat ins)) ->
+  same_content w0 (write_outputs F c ins outs j w).
+Proof.
+  induction outs as [|x outs IH]; intros j w0 w S H; cbn [write_outputs]; [exact S|].
+  apply IH.
+  - destruct (node_virtual x) eqn:Vx; [exact S|]. intros p. destruct (bytes_eqb p x) eqn:E.
+    + apply bytes_eqb_eq in E. subst p. unfold write_fresh. rewrite content_put_same.
+      rewrite (H O x eq_refl Vx). rewrite Nat.add_0_r. reflexivity.
+    + apply bytes_eqb_neq in E. unfold write_fresh. rewrite content_put_other by assumption. apply S.
+  - intros i o Hn NV. rewrite (H (Datatypes.S i) o Hn NV). rewrite Nat.add_succ_r. reflexivity.
+Qed.
+
+Lemma write_outputs_content c ins outs : NoDup outs -> forall j w i o,
+  nth_error outs i = Some o -> node_virtual o = false ->
+  content_w (write_outputs F c ins outs j w) o = Some (F c (j + i)%nat ins).
+Proof.
+  induction 1 as [|x outs Nx ND IH]; intros j w i o Hn NV; [destruct i; discriminate Hn|].
+  cbn [write_outputs]. destruct i as [|i].
+  - cbn in Hn. inversion Hn. subst x. rewrite NV. unfold content_w.
+    rewrite write_outputs_other by (intros o' I' _ E; subst o'; contradiction).
+    unfold write_fresh. rewrite put_fs_same. rewrite Nat.add_0_r. reflexivity.
+  - cbn [nth_error] in Hn. rewrite (IH (S j) _ i o Hn NV). rewrite Nat.add_succ_r. reflexivity.
+Qed.
+
+Lemma input_contents_same w w' ins : same_content w w' -> input_contents w' ins = input_contents w ins.
+Proof. intros S. unfold input_contents. apply map_ext. intros p. apply S. Qed.
+
+Lemma run_external_executes e w c prior ins :
+  existsb is_unreachable (map (classify_input (c_allow_missing_inputs (cm_def c))) ins) = false ->
+  existsb is_skip (map (classify_input (c_allow_missing_inputs (cm_def c))) ins) = false ->
+  c_allow_modified_outputs (cm_def c) = false ->
+  run_external F e w c prior ins =
+  match exec_tool F c w with
+  | Some w' => Some (w', command_result e w' (cm_outputs c), true)
+  | None => Some (w, v_simple VFailedCommand, true)
+  end.
+Proof.
+  intros H1 H2 H3. unfold run_external. rewrite H1, H2. unfold can_update. rewrite H3. cbn [andb].
+  rewrite andb_false_r. reflexivity.
+Qed.
+
+(* with allow-modified-outputs, a command that has a successful prior result and whose outputs all exist is not
+   executed at all: its result is only re-recorded (by design; such commands are outside the property) *)
+Lemma allow_modified_outputs_skips_execution e w c p ins :
+  existsb is_unreachable (map (classify_input (c_allow_missing_inputs (cm_def c))) ins) = false ->
+  existsb is_skip (map (classify_input (c_allow_missing_inputs (cm_def c))) ins) = false ->
+  existsb is_missing_output (map (classify_input (c_allow_missing_inputs (cm_def c))) ins) = false ->
+  is_successful (bv_kind p) = true -> can_update c (command_result e w (cm_outputs c)) = true ->
+  run_external F e w c (Some p) ins = Some (w, command_result e w (cm_outputs c), false).
+Proof.
+  intros H1 H2 H3 H4 H5. unfold run_external. rewrite H1, H2, H3, H4, H5. reflexivity.
+Qed.
+
+Lemma recorded_valid d e w c :
+  (cm_tool c = TShell \/ cm_tool c = TPhony) -> c_always_out_of_date (cm_def c) = false ->
+  cmd_valid d w c (command_result e w (cm_outputs c)) = Valid.
+Proof.
+  intros T A. unfold cmd_valid.
+  assert (H : is_result_valid (c_always_out_of_date (cm_def c)) (command_result e w (cm_outputs c))
+                              (onodes d w (cm_outputs c)) = Valid).
+  { unfold is_result_valid. rewrite A, command_result_kind. cbn [is_successful negb].
+    destruct (cm_outputs c) as [|x l] eqn:Eo; [reflexivity|].
+    rewrite command_result_infos by discriminate. apply outputs_valid_recorded. }
+  destruct T as [T|T]; rewrite T; exact H.
+Qed.
+
+(* ---------- shell: re-running a command whose outputs already hold what it computes ---------- *)
+
+Theorem shell_rerun d e w c prior ins :
+  cm_tool c = TShell -> wf_world w ->
+  existsb is_unreachable (map (classify_input (c_allow_missing_inputs (cm_def c))) ins) = false ->
+  existsb is_skip (map (classify_input (c_allow_missing_inputs (cm_def c))) ins) = false ->
+  c_allow_modified_outputs (cm_def c) = false -> c_always_out_of_date (cm_def c) = false ->
+  shell_outputs_hold F w c ->
+  exists w',
+    run_external F e w c prior ins = Some (w', command_result e w' (cm_outputs c), true) /\
+    same_content w w' /\ wf_world w' /\ shell_outputs_hold F w' c /\
+    cmd_valid d w' c (command_result e w' (cm_outputs c)) = Valid /\
+    (forall p, (forall o, In o (cm_outputs c) -> node_virtual o = false -> o <> p) -> w_fs w' p = w_fs w p) /\
+    (forall o, In o (cm_outputs c) -> node_virtual o = false -> info_eqb (stat_w w o) (stat_w w' o) = false).
+Proof.
+  intros T W U K AM AO H.
+  set (insc := input_contents w (cm_inputs c)).
+  exists (write_outputs F c insc (cm_outputs c) 0 w).
+  assert (SC : same_content w (write_outputs F c insc (cm_outputs c) 0 w)).
+  { apply write_outputs_same_content; [intros p; reflexivity|]. intros i o Hn NV. exact (H i o Hn NV). }
+  split; [|split; [exact SC|split; [apply write_outputs_wf; exact W|split; [|split; [|split]]]]].
+  - rewrite run_external_executes by assumption. unfold exec_tool. rewrite T. reflexivity.
+  - intros j o Hn NV. rewrite (input_contents_same _ _ _ SC). rewrite SC. exact (H j o Hn NV).
+  - apply recorded_valid; [left; exact T | exact AO].
+  - intros p Hp. apply write_outputs_other. exact Hp.
+  - intros o I NV. apply observable_differs; [exact W|].
+    destruct (write_outputs_stamp c insc (cm_outputs c) o 0 w I NV) as [A B]. split; assumption.
+Qed.
+
+(* consequently: the value stored before the re-run is no longer valid afterwards (the recorded stamps change) as
+   soon as the command has a non-virtual, non-mutated output, and the node of each such output gets a value that
+   is not equivalent to its previous one: dependents see a changed producer value and run again *)
+Corollary shell_rerun_changes_value d w w' c v o :
+  cm_tool c = TShell -> cmd_valid d w c v = Valid ->
+  In o (cm_outputs c) -> node_virtual o = false -> is_mutated d o = false ->
+  info_eqb (stat_w w o) (stat_w w' o) = false ->
+  cmd_valid d w' c v = Invalid.
+Proof.
+  intros T V I NV Mu D. apply (tamper_detected d w w' c v o V I NV). rewrite T. split; [exact D | congruence].
+Qed.
+
+Corollary shell_rerun_dependents_see_change d e0 w0 e w w' c o :
+  cm_tool c = TShell -> cmd_valid d w c (command_result e0 w0 (cm_outputs c)) = Valid ->
+  (forall o', In o' (cm_outputs c) -> is_mutated d o' = false) ->
+  In o (cm_outputs c) -> node_virtual o = false ->
+  is_missing (stat_w w o) = false -> is_missing (stat_w w' o) = false ->
+  info_eqb (stat_w w o) (stat_w w' o) = false ->
+  exists a b, result_for_output c o (command_result e0 w0 (cm_outputs c)) = Some a /\
+              result_for_output c o (command_result e w' (cm_outputs c)) = Some b /\
+              value_equiv a b = false.
+Proof.
+  intros T V Mu I NV M M' D. unfold result_for_output. rewrite T.
+  rewrite !ext_result_recorded by assumption. rewrite M'.
+  assert (Ne : cm_outputs c <> []) by (intros E; rewrite E in I; destruct I).
+  unfold cmd_valid in V. rewrite T in V. unfold is_result_valid in V.
+  destruct (c_always_out_of_date (cm_def c)); [discriminate V|].
+  rewrite command_result_kind in V. cbn [is_successful negb] in V.
+  rewrite command_result_infos in V by assumption.
+  pose proof (outputs_valid_equiv d w w0 _ Mu V) as Q.
+  assert (E0 : info_eqb (stat_w w o) (stat_w w0 o) = true).
+  { destruct (In_nth_error _ _ I) as [i Hi].
+    clear - Q Hi NV. revert i Hi. induction (cm_outputs c) as [|x l IH]; intros i Hi; [destruct i; discriminate Hi|].
+    cbn [out_infos map infos_equiv] in Q. apply andb_true_iff in Q. destruct Q as [Q1 Q2].
+    destruct i as [|i].
+    - cbn in Hi. inversion Hi. subst x. rewrite NV in Q1. exact Q1.
+    - exact (IH Q2 i Hi). }
+  assert (M0 : is_missing (stat_w w0 o) = false) by (rewrite <- (info_eqb_missing _ _ E0); exact M).
+  rewrite M0. eexists. eexists. split; [reflexivity|split; [reflexivity|]].
+  apply existing_values_differ.
+  destruct (info_eqb (stat_w w0 o) (stat_w w' o)) eqn:E; [|reflexivity].
+  rewrite (info_eqb_trans _ _ _ E0 E) in D. discriminate.
+Qed.
+
+(* a command all of whose outputs are virtual touches nothing and records the same value every time *)
+Lemma all_virtual_same_result e1 w1 e2 w2 outs :
+  outs <> [] -> forallb node_virtual outs = true -> command_result e1 w1 outs = command_result e2 w2 outs.
+Proof.
+  intros Ne Hv. unfold command_result. destruct outs as [|x l] eqn:Eo; [congruence|]. rewrite <- Eo in *. f_equal.
+  clear Eo Ne. induction outs as [|y outs IH]; [reflexivity|]. cbn [forallb] in Hv. apply andb_true_iff in Hv.
+  destruct Hv as [Hy Hr]. cbn [out_infos map]. rewrite Hy. f_equal. apply IH. exact Hr.
+Qed.
+
+Lemma all_virtual_no_write c ins outs : forall j w, forallb node_virtual outs = true -> write_outputs F c ins outs j w = w.
+Proof.
+  induction outs as [|x outs IH]; intros j w Hv; [reflexivity|]. cbn [forallb] in Hv. apply andb_true_iff in Hv.
+  destruct Hv as [Hx Hr]. cbn [write_outputs]. rewrite Hx. apply IH. exact Hr.
+Qed.
+
+(* ---------- phony: nothing is written; the value is re-recorded ---------- *)
+
+Theorem phony_rerun d e0 w0 e w c prior ins :
+  cm_tool c = TPhony -> cm_outputs c <> [] ->
+  existsb is_unreachable (map (classify_input (c_allow_missing_inputs (cm_def c))) ins) = false ->
+  existsb is_skip (map (classify_input (c_allow_missing_inputs (cm_def c))) ins) = false ->
+  c_allow_modified_outputs (cm_def c) = false ->
+  (forall o, In o (cm_outputs c) -> is_mutated d o = false) ->
+  cmd_valid d w c (command_result e0 w0 (cm_outputs c)) = Valid ->
+  run_external F e w c prior ins = Some (w, command_result e w (cm_outputs c), true) /\
+  value_equiv (command_result e w (cm_outputs c)) (command_result e0 w0 (cm_outputs c)) = true.
+Proof.
+  intros T Ne U K AM Mu V. split.
+  - rewrite run_external_executes by assumption. unfold exec_tool. rewrite T. reflexivity.
+  - unfold value_equiv. rewrite !command_result_kind, N.eqb_refl, !command_result_infos by assumption. cbn [andb].
+    unfold cmd_valid in V. rewrite T in V. unfold is_result_valid in V.
+    destruct (c_always_out_of_date (cm_def c)); [discriminate V|].
+    rewrite command_result_kind in V. cbn [is_successful negb] in V.
+    rewrite command_result_infos in V by assumption. apply (outputs_valid_equiv d); assumption.
+Qed.
+
+(* ---------- mkdir: a valid result means the directory is there; running again changes nothing ---------- *)
+
+Theorem mkdir_rerun d e w c v prior ins :
+  cm_tool c = TMkdir -> cmd_valid d w c v = Valid ->
+  existsb is_unreachable (map (classify_input (c_allow_missing_inputs (cm_def c))) ins) = false ->
+  existsb is_skip (map (classify_input (c_allow_missing_inputs (cm_def c))) ins) = false ->
+  c_allow_modified_outputs (cm_def c) = false ->
+  run_external F e w c prior ins = Some (w, command_result e w (cm_outputs c), true) /\
+  cmd_valid d w c (command_result e w (cm_outputs c)) = Valid.
+Proof.
+  intros T V U K AM. unfold cmd_valid in *. rewrite T in *. unfold mkdir_valid in *.
+  destruct (negb (is_successful (bv_kind v))); [discriminate V|].
+  destruct (cm_outputs c) as [|o outs] eqn:Eo; [discriminate V|].
+  destruct (is_missing (stat_w w o)) eqn:M; [discriminate V|].
+  destruct (negb (fi_is_dir (stat_w w o))) eqn:D; [discriminate V|].
+  split.
+  - rewrite run_external_executes by assumption. unfold exec_tool. rewrite T, Eo. cbn [hd].
+    unfold stat_w in M, D. destruct (w_fs w o) as [[cc s]|].
+    + apply negb_false_iff in D. rewrite D. reflexivity.
+    + rewrite missing_info_is_missing in M. discriminate M.
+  - rewrite command_result_kind. reflexivity.
+Qed.
+
+(* ---------- symlink: the link is always created anew: same target, new stamp ---------- *)
+
+Theorem symlink_rerun d w c :
+  cm_tool c = TSymlink -> wf_world w ->
+  forall o, hd_error (cm_outputs c) = Some o -> o <> [] ->
+  exists w' v',
+    run_symlink w c = (w', v', true) /\ wf_world w' /\
+    content_w w' o = Some (cm_contents c) /\
+    (forall p, p <> o -> w_fs w' p = w_fs w p) /\
+    info_eqb (stat_w w o) (stat_w w' o) = false /\
+    cmd_valid d w' c v' = Valid /\
+    (content_w w o = Some (cm_contents c) -> same_content w w').
+Proof.
+  intros T W o Ho Ne. destruct (cm_outputs c) as [|x outs] eqn:Eo; [discriminate Ho|]. cbn in Ho. inversion Ho. subst x.
+  assert (Hn : is_nil o = false) by (destruct o; [congruence | reflexivity]).
+  exists (write_fresh w o mode_link (cm_contents c)). eexists.
+  split; [unfold run_symlink; rewrite Eo, Hn; reflexivity|].
+  split; [apply wf_write_fresh; exact W|].
+  split; [unfold write_fresh; apply content_put_same|].
+  split; [intros p Hp; unfold write_fresh; apply put_fs_other; exact Hp|].
+  split; [unfold write_fresh; rewrite stat_put_same; apply observable_differs; [exact W | apply fresh_observable]|].
+  split.
+  - unfold cmd_valid. rewrite T. unfold symlink_valid. rewrite Eo, Hn. cbn [v_success bv_kind is_successful negb bv_infos length Nat.eqb].
+    unfold write_fresh. rewrite stat_put_same, fresh_not_missing. unfold first_info. cbn [bv_infos hd].
+    rewrite info_eqb_refl. reflexivity.
+  - intros Hc p. destruct (bytes_eqb p o) eqn:E.
+    + apply bytes_eqb_eq in E. subst p. unfold write_fresh. rewrite content_put_same. symmetry. exact Hc.
+    + apply bytes_eqb_neq in E. unfold write_fresh. apply content_put_other. exact E.
+Qed.
+
+End RunFacts.
+
+(* ---------- produced nodes and targets ---------- *)
+
+(* the value of a produced node is a function of the producer's VALUE alone (no file system access), and
+   equivalent producer values give equivalent node values *)
+Lemma infos_equiv_length a : forall b, infos_equiv a b = true -> length a = length b.
+Proof.
+  induction a as [|x a IH]; intros [|y b] H; try reflexivity; try discriminate H.
+  cbn [infos_equiv] in H. apply andb_true_iff in H. cbn [length]. f_equal. apply IH. tauto.
+Qed.
+
+Lemma infos_equiv_nth a : forall b i x, infos_equiv a b = true -> nth_error a i = Some x ->
+  exists y, nth_error b i = Some y /\ info_eqb x y = true.
+Proof.
+  induction a as [|x0 a IH]; intros [|y0 b] i x H Hn; try (destruct i; discriminate Hn); try discriminate H.
+  cbn [infos_equiv] in H. apply andb_true_iff in H. destruct H as [H1 H2]. destruct i as [|i].
+  - cbn in Hn. inversion Hn. subst x0. exists y0. split; [reflexivity | exact H1].
+  - cbn [nth_error] in Hn |- *. apply (IH b i x H2 Hn).
+Qed.
+
+Lemma nth_info_equiv v1 v2 i x : infos_equiv (bv_infos v1) (bv_infos v2) = true -> nth_info v1 i = Some x ->
+  exists y, nth_info v2 i = Some y /\ info_eqb x y = true.
+Proof.
+  unfold nth_info. intros H Hn. pose proof (infos_equiv_length _ _ H) as L.
+  destruct (bv_infos v1) as [|a [|a2 l1]] eqn:E1; destruct (bv_infos v2) as [|b [|b2 l2]] eqn:E2; try discriminate L.
+  - destruct i; discriminate Hn.
+  - inversion Hn. subst a. cbn [infos_equiv] in H. apply andb_true_iff in H. exists b. tauto.
+  - apply (infos_equiv_nth _ _ i x H Hn).
+Qed.
+
+Definition opt_equiv (a b : option bvalue) : Prop :=
+  match a, b with
+  | Some x, Some y => value_equiv x y = true
+  | None, None => True
+  | _, _ => False
+  end.
+
+Theorem produced_value_congruent c n v1 v2 :
+  value_equiv v1 v2 = true -> opt_equiv (result_for_output c n v1) (result_for_output c n v2).
+Proof.
+  intros H. unfold value_equiv in H. apply andb_true_iff in H. destruct H as [Hk Hi].
+  apply N.eqb_eq in Hk. apply vtag_inj in Hk.
+  assert (Hext : opt_equiv (ext_result_for_output c n v1) (ext_result_for_output c n v2)).
+  { unfold ext_result_for_output, kind_is. rewrite <- Hk.
+    destruct (is_failure_kind (bv_kind v1)); [apply value_equiv_refl|].
+    destruct (N.eqb (vtag (bv_kind v1)) (vtag VSkippedCommand)); [apply value_equiv_refl|].
+    destruct (negb (is_successful (bv_kind v1))); [exact I|].
+    destruct (node_virtual n); [apply value_equiv_refl|].
+    destruct (index_of n (cm_outputs c)) as [i|]; [|exact I].
+    destruct (nth_info v1 i) as [x|] eqn:E1.
+    - destruct (nth_info_equiv v1 v2 i x Hi E1) as [y [E2 Exy]]. rewrite E2. cbn [opt_equiv].
+      rewrite <- (info_eqb_missing _ _ Exy). destruct (is_missing x); [apply value_equiv_refl|].
+      unfold value_equiv, v_existing. cbn. rewrite Exy. reflexivity.
+    - destruct (nth_info v2 i) as [y|] eqn:E2; [|exact I].
+      assert (Hi' : infos_equiv (bv_infos v2) (bv_infos v1) = true).
+      { clear - Hi. revert Hi. generalize (bv_infos v1) (bv_infos v2). intros a. induction a as [|x a IH]; intros [|y b] H;
+          try reflexivity; try discriminate H. cbn [infos_equiv] in *. apply andb_true_iff in H. destruct H as [H1 H2].
+        rewrite (info_eqb_sym_true _ _ H1), (IH b H2). reflexivity. }
+      destruct (nth_info_equiv v2 v1 i y Hi' E2) as [x [E1' _]]. congruence. }
+  unfold result_for_output. destruct (cm_tool c).
+  - exact Hext.
+  - destruct (node_virtual n); [apply value_equiv_refl | exact Hext].
+  - exact Hext.
+  - unfold symlink_result_for_output, kind_is. rewrite <- Hk.
+    destruct (is_failure_kind (bv_kind v1)); [apply value_equiv_refl|].
+    destruct (N.eqb (vtag (bv_kind v1)) (vtag VSkippedCommand)); [apply value_equiv_refl|].
+    destruct (negb (is_successful (bv_kind v1))); [exact I|].
+    destruct (bv_infos v1) as [|x l1]; destruct (bv_infos v2) as [|y l2]; try discriminate Hi; [exact I|].
+    cbn [infos_equiv] in Hi. apply andb_true_iff in Hi. destruct Hi as [Exy _]. cbn [opt_equiv].
+    rewrite <- (info_eqb_missing _ _ Exy). destruct (is_missing x); [apply value_equiv_refl|].
+    unfold value_equiv, v_existing. cbn. rewrite Exy. reflexivity.
+Qed.
+
+(* validity of a produced node's value does not look at the world *)
+Theorem produced_valid_world_independent d w1 w2 n v ps :
+  lookup_rule d (KN n) = RProduced n ps -> rule_valid d w1 (KN n) v = rule_valid d w2 (KN n) v.
+Proof. intros H. unfold rule_valid. rewrite H. reflexivity. Qed.
+
+(* target rules are never valid: the target task runs in every build (it writes nothing) *)
+Theorem target_never_valid d w t v : rule_valid d w (KT t) v = Invalid.
+Proof. unfold rule_valid, lookup_rule. destruct (find_target (d_targets d) t); reflexivity. Qed.
+
+Theorem missing_command_never_valid d w name v :
+  find_cmd (d_cmds d) name = None -> rule_valid d w (KC name) v = Invalid.
+Proof. intros H. unfold rule_valid, lookup_rule. rewrite H. reflexivity. Qed.
+
+(* the file-input task: valid means re-running observes the same thing (world untouched: the task only stats) *)
+Theorem file_input_rerun w0 w n :
+  wf_world w0 -> wf_world w ->
+  file_valid w n (run_file_input w0 n) = true -> value_equiv (run_file_input w n) (run_file_input w0 n) = true.
+Proof.
+  intros W0 W V. unfold file_valid, run_file_input in *.
+  destruct (is_missing (stat_w w n)) eqn:M; destruct (is_missing (stat_w w0 n)) eqn:M0.
+  - reflexivity.
+  - discriminate V.
+  - discriminate V.
+  - unfold first_info, v_existing, kind_is in V. cbn in V. unfold value_equiv, v_existing. cbn.
+    rewrite (info_eqb_sym_true _ _ V). reflexivity.
+Qed.
